@@ -42,6 +42,9 @@ def _blob(maxlen=10):
 @st.composite
 def wire_batches(draw, subsecond: bool):
     n = draw(st.sampled_from([0, 1, 1, 2, 3, 5]))  # 0: empty batches are well-formed (brokers keep them after compaction)
+    many = draw(st.integers(0, 39)) == 0  # 1 batch in 40: hundreds of small records, as producers of small messages send
+    if many:
+        n = draw(st.sampled_from([255, 256, 257, 300, 1000]))
     base_offset = draw(st.one_of(st.sampled_from([0, 1, 2**40, 2**63 - 1 - 2**31, -(2**63) + 2**31]),
                                  st.integers(-(2**63) + 2**31, 2**63 - 1 - 2**31)))
     base_ts = draw(st.one_of(st.sampled_from([0, 999, 1000, 1503229838908, 2**41 + 7, TS_MAX_MS]), st.integers(0, TS_MAX_MS)))
@@ -59,6 +62,10 @@ def wire_batches(draw, subsecond: bool):
         nh = draw(st.sampled_from([0, 0, 1, 2]))
         key, value = draw(_blob()), draw(_blob(24))
         big = draw(st.integers(0, 39))  # 1 case in 10: a part whose varint length / count needs two or three bytes
+        if many and i >= 3:  # the bulk of a many-record batch repeats three drawn shapes
+            recs.append(recs[i % 3])
+            tss[-1] = base_ts + recs[i % 3].timestamp_delta
+            continue
         if big == 0:
             nh = draw(st.sampled_from([63, 64, 65]))
         elif big in (1, 2):
